@@ -711,6 +711,18 @@ class ParserAI:
             return [(tgt, s)]
 
         if callee is None:
+            # call through a function pointer: interpreted when the pointer is a known function item
+            target = UNK
+            if "move" in f or "copy" in f:
+                target = self.opval(st, body, f)
+                n = 0
+                while target[0] in ("refval", "ref") and n < 4:
+                    target = target[1] if target[0] == "refval" else st.vals.get(target[1], UNK)
+                    n += 1
+            if target[0] == "fn" and target[1] in self.prog.bodies:
+                return self.call_local(ctx, body, b, target[1], tuple(args), st, cont)
+            if any(a == SELF or (isinstance(a, tuple) and a and a[0] == "refval" and a[1] == SELF) for a in args):
+                self.unsupported[(fn, "indirect-call-with-parser")] = body.where(b)
             return cont(st)
 
         # ---- diverging calls (panics)
